@@ -140,6 +140,49 @@ def local_value(st, name, fn):
     return None
 
 
+def local_values(st, name, fn):
+    """All the values `name` may hold at statement `st`: like local_value, but a preceding
+    `if` that assigns the name on some path contributes its assignments and the search goes
+    on.  None when a binding is not a plain assignment; entries are ast nodes or
+    ('loop', For)."""
+    out = []
+    cur = st
+    while cur is not None and cur is not fn:
+        par = getattr(cur, "_parent", None)
+        if par is None:
+            return None
+        for field in ("body", "orelse", "finalbody"):
+            blk = getattr(par, field, None)
+            if isinstance(blk, list) and any(x is cur for x in blk):
+                k = [i for i, x in enumerate(blk) if x is cur][0]
+                for prev in reversed(blk[:k]):
+                    if isinstance(prev, ast.Assign) and len(prev.targets) == 1 \
+                            and isinstance(prev.targets[0], ast.Name) \
+                            and prev.targets[0].id == name:
+                        return out + [prev.value]
+                    stores = [n for n in ast.walk(prev) if isinstance(n, ast.Name)
+                              and n.id == name and isinstance(n.ctx, (ast.Store, ast.Del))]
+                    if not stores:
+                        continue
+                    if not isinstance(prev, ast.If):
+                        return None
+                    for a in ast.walk(prev):
+                        if isinstance(a, (ast.For, ast.While, ast.Try, ast.With)) and any(
+                                s_ in list(ast.walk(a)) for s_ in stores):
+                            return None
+                    asg = [a for a in ast.walk(prev) if isinstance(a, ast.Assign)
+                           and len(a.targets) == 1 and isinstance(a.targets[0], ast.Name)
+                           and a.targets[0].id == name]
+                    if len(asg) != len(stores):
+                        return None
+                    out += [a.value for a in asg]
+        if isinstance(par, ast.For) and any(
+                isinstance(n, ast.Name) and n.id == name for n in ast.walk(par.target)):
+            return out + [("loop", par)]
+        cur = par
+    return None
+
+
 def role_of(fn, name):
     """what a local name stands for, independent of its spelling"""
     params = [a.arg for a in fn.args.args]
